@@ -248,7 +248,7 @@ PegStage(acc, h, rates, avgs, bank) ==
       I == 1..Len(reqs)
       paid == SumSet([i \in I |-> IF i = d THEN NAdd(y.base[i], y.dust) ELSE y.base[i]], I)
       outs == [i \in I |-> LET yld == IF i = d THEN NAdd(y.base[i], y.dust) ELSE y.base[i]
-                           IN  [hash |-> reqs[i].hash, idx |-> reqs[i].idx, yield |-> yld, refund |-> Refund(h, reqs[i], yld, rates)]]
+                           IN  [hash |-> reqs[i].hash, idx |-> reqs[i].idx, a |-> reqs[i].a, yield |-> yld, refund |-> Refund(h, reqs[i], yld, rates)]]
   IN  [acc EXCEPT !.bal = PegApply(acc.bal, reqs, y, d, h, rates, 1), !.peg = <<>>,
                   !.pegOut = acc.pegOut \o outs, !.pegPaid = NAdd(acc.pegPaid, paid), !.pegReq = NAdd(acc.pegReq, y.total)]
 
